@@ -94,6 +94,35 @@ fn migrate_after_handover(rep: &mut Report, u: &mut U, prefix: &str, addr: &Addr
     matrix(rep, u, &ep, newcomer, owners, None, stranger, history);
 }
 
+/// `matrix` for the entry point as it is, and again with the contract's migration window open (the
+/// owner has upgraded, the migration has not run yet): whatever a contract allows, skips or
+/// defaults in that state, nobody but the role holder may get an administrative call through.
+/// The holder's own call may be refused there (a contract may pause while it migrates).
+fn matrix_also_in_window(rep: &mut Report, u: &mut U, ep: &Ep, addr: &Address, holder: &Address, formers: &[Address], other_role: Option<&Address>, stranger: &Address, history: &str) {
+    matrix(rep, u, ep, holder, formers, other_role, stranger, history);
+    if ep.name.contains(".migrate") || ep.name.contains(".upgrade") {
+        return;
+    }
+    let open = open_window(addr);
+    let inner = ep.prep.clone();
+    let prep: Rc<dyn Fn(&mut U)> = Rc::new(move |u: &mut U| {
+        open(u);
+        if let Some(p) = &inner {
+            p(u);
+        }
+    });
+    let ep2 = Ep {
+        holder_may_fail: true,
+        name: format!("{}(migration-window-open)", ep.name),
+        role: ep.role,
+        call: ep.call.clone(),
+        other_args: ep.other_args.clone(),
+        beneficiary: ep.beneficiary.clone(),
+        prep: Some(prep),
+    };
+    matrix(rep, u, &ep2, holder, formers, other_role, stranger, history);
+}
+
 /// The three entry points every upgradable + ownable contract has.
 fn common_eps(prefix: &str, addr: &Address, newcomer: &Address, other: &Address, other_hash: &BytesN<32>, migrate_string: bool, current_owner: Option<&Address>) -> Vec<Ep> {
     let mut v = Vec::new();
@@ -466,12 +495,12 @@ pub fn run(ctx: &Ctx, rep: &mut Report) {
                     }
                 };
                 for ep in &eps {
-                    matrix(rep, &mut u, ep, &owner, &owners[..owners.len() - 1], Some(&operator), &stranger, history);
+                    matrix_also_in_window(rep, &mut u, ep, &g.addr, &owner, &owners[..owners.len() - 1], Some(&operator), &stranger, history);
                 }
                 migrate_after_handover(rep, &mut u, "gateway", &g.addr, false, &owners, &newcomer, &stranger, history);
                 matrix(rep, &mut u, &older_ep, &operator, &operators[..operators.len() - 1], Some(&owner), &stranger, history);
                 for ep in &op_eps {
-                    matrix(rep, &mut u, ep, &operator, &operators[..operators.len() - 1], Some(&owner), &stranger, history);
+                    matrix_also_in_window(rep, &mut u, ep, &g.addr, &operator, &operators[..operators.len() - 1], Some(&owner), &stranger, history);
                 }
                 eps.clear();
                 {
@@ -504,7 +533,7 @@ pub fn run(ctx: &Ctx, rep: &mut Report) {
                 let owner = owners.last().unwrap().clone();
                 let eps = common_eps("gas-service", &gs, &newcomer, &other, &other_hash, false, Some(&owner));
                 for ep in &eps {
-                    matrix(rep, &mut u, ep, &owner, &owners[..owners.len() - 1], Some(&collector), &stranger, history);
+                    matrix_also_in_window(rep, &mut u, ep, &gs, &owner, &owners[..owners.len() - 1], Some(&collector), &stranger, history);
                 }
                 migrate_after_handover(rep, &mut u, "gas-service", &gs, false, &owners, &newcomer, &stranger, history);
                 // collector entry points (the collector is fixed at construction)
@@ -559,7 +588,7 @@ pub fn run(ctx: &Ctx, rep: &mut Report) {
                     c_eps[n - 1].other_args.push(mk_to(receiver.clone(), true, b"msg-2"));
                 }
                 for ep in &c_eps {
-                    matrix(rep, &mut u, ep, &collector, &[], Some(&owner), &stranger, history);
+                    matrix_also_in_window(rep, &mut u, ep, &gs, &collector, &[], Some(&owner), &stranger, history);
                 }
                 {
                     let a = gs.clone();
@@ -614,7 +643,7 @@ pub fn run(ctx: &Ctx, rep: &mut Report) {
                     prep: None,
                 });
                 for ep in &eps {
-                    matrix(rep, &mut u, ep, &owner, &owners[..owners.len() - 1], Some(&member), &stranger, history);
+                    matrix_also_in_window(rep, &mut u, ep, &oc, &owner, &owners[..owners.len() - 1], Some(&member), &stranger, history);
                 }
                 migrate_after_handover(rep, &mut u, "operators", &oc, false, &owners, &newcomer, &stranger, history);
                 {
@@ -660,7 +689,7 @@ pub fn run(ctx: &Ctx, rep: &mut Report) {
                 let gw_owner = sc_addr(&w.gs_collector);
                 let other_role = addr_of(&w.u.env, &gw_owner);
                 for ep in &eps {
-                    matrix(rep, &mut w.u, ep, &owner, &owners[..owners.len() - 1], Some(&other_role), &stranger, history);
+                    matrix_also_in_window(rep, &mut w.u, ep, &ga, &owner, &owners[..owners.len() - 1], Some(&other_role), &stranger, history);
                 }
                 let its_addr = w.its.clone();
                 migrate_after_handover(rep, &mut w.u, "its", &its_addr, false, &owners, &newcomer, &stranger, history);
@@ -760,7 +789,7 @@ pub fn run(ctx: &Ctx, rep: &mut Report) {
                     });
                 }
                 for ep in &eps {
-                    matrix(rep, &mut u, ep, &owner, &owners[..owners.len() - 1], Some(&minter), &stranger, history);
+                    matrix_also_in_window(rep, &mut u, ep, &tk, &owner, &owners[..owners.len() - 1], Some(&minter), &stranger, history);
                 }
                 migrate_after_handover(rep, &mut u, "interchain-token", &tk, false, &owners, &newcomer, &stranger, history);
                 {
